@@ -192,6 +192,112 @@ def sign_rules(r, work, tier):
     return done, len(insts)
 
 
+# ---------------------------------------------------------------------------------------------------------------------
+# LIMB: the limb arithmetic at fixed limb counts, for all limb values (vlib/limbalg.py)
+
+LIMB_TYPES = {
+    "quick": [(200, "unsigned", 32, False), (129, "std::uint64_t", 64, False), (256, "std::uint64_t", 64, False), (500, "std::uint64_t", 64, False),
+              (130, "std::uint16_t", 16, False), (136, "std::uint8_t", 8, False), (200, "int", 32, True), (255, "std::int64_t", 64, True)],
+    "thorough": [(D, N, L, sg) for (N, L, sg) in (("unsigned", 32, False), ("int", 32, True), ("std::uint64_t", 64, False), ("std::int64_t", 64, True), ("std::uint16_t", 16, False),
+                                                   ("std::int16_t", 16, True), ("std::uint8_t", 8, False), ("std::int8_t", 8, True))
+                 for D in (129, 136, 160, 192, 200, 255, 256, 320, 384, 500, 512) if not (L == 8 and D > 200) and not (L == 16 and D > 384)],
+}
+
+
+def _limb_ops(W, L, sg, tier):
+    """[(name, C++ body, operands [(name, bits, limb bits)], result bits, spec(cx, values))]"""
+    from vlib import limbalg as la
+    ks = sorted({1, L - 1, L, L + 1, 37, W - 1} if tier == "quick" else {1, 3, L - 1, L, L + 1, 2 * L, 2 * L + 5, 37, W - L, W - 1})
+    two = [("a", W, L), ("b", W, L)]
+    one = [("a", W, L)]
+    ops = [("add", "return a + b;", two, W, lambda cx, v: la.padd(v[0], v[1])),
+           ("sub", "return a - b;", two, W, lambda cx, v: la.padd(v[0], v[1], -1)),
+           ("mul", "return a * b;", two, W, lambda cx, v: la.pmul(v[0], v[1])),
+           ("neg", "return -a;", one, W, lambda cx, v: la.pscale(v[0], -1)),
+           ("inc", "T r = a; ++r; return r;", one, W, lambda cx, v: la.padd(v[0], la.const(1))),
+           ("dec", "T r = a; --r; return r;", one, W, lambda cx, v: la.padd(v[0], la.const(-1)))]
+    for k in ks:
+        if not (0 < k < W):
+            continue
+        ops.append(("shl%d" % k, "return a << %d;" % k, one, W, lambda cx, v, k=k: la.pscale(v[0], 1 << k)))
+        if sg:
+            ops.append(("shr%d" % k, "return a >> %d;" % k, one, W,
+                        lambda cx, v, k=k: la.F(cx, la.padd(v[0], la.pscale(la.F(cx, v[0], W - 1), 1 << W), -1), k)))
+        else:
+            ops.append(("shr%d" % k, "return a >> %d;" % k, one, W, lambda cx, v, k=k: la.F(cx, v[0], k)))
+    return ops
+
+
+def limb_rules(r, work, tier, seed):
+    import os, re, time
+    from vlib import ir, limbalg as la
+    types = LIMB_TYPES[tier]
+    src = tc.PRELUDE["clang"]
+    plan = []
+    for ti, (D, N, L, sg) in enumerate(types):
+        need = D + (1 if sg else 0)
+        W = -(-need // L) * L
+        src += "using LT%d = cnl::wide_integer<%d, %s>;\n" % (ti, D, N)
+        for (name, body, opds, RW, spec) in _limb_ops(W, L, sg, tier):
+            fname = "lk%d_%s" % (ti, name)
+            src += 'extern "C" LT%d %s(%s) { using T = LT%d; %s }\n' % (ti, fname, ", ".join("LT%d %s" % (ti, o[0]) for o in opds), ti, body)
+            plan.append((fname, "wide_integer<%d, %s>" % (D, N.replace("std::", "")), name, W, L, opds, RW, spec))
+    # positive control: a + b judged against a - b must be refuted with a counterexample
+    src += 'extern "C" LT0 lk_control(LT0 a, LT0 b) { return a + b; }\n'
+    p, out = os.path.join(work, "limb.cpp"), os.path.join(work, "limb.ll")
+    open(p, "w").write(src)
+    cmd = [tc.CLANGXX] + tc.COMMON + ["-O2", "-DNDEBUG", "-fno-vectorize", "-fno-slp-vectorize", "-mllvm", "-inline-threshold=1000000", "-S", "-emit-llvm", p, "-o", out]
+    rc, so, se = tc.run(cmd)
+    if rc != 0:
+        raise tc.AnalysisBroken("limb-arithmetic TU does not compile: " + se[:1500])
+    text = open(out).read()
+    mod = ir.parse_module(text)
+
+    def one(job):
+        fname, tname, opname, W, L, opds, RW, spec = job
+        fn = mod.functions.get(fname)
+        if fn is None:
+            return ("broken", {"why": "kernel vanished"})
+        t0 = time.time()
+        try:
+            v, d = la.check_kernel(text, fn, RW, opds, spec, seed=seed)
+        except la.Undecided as e:
+            v, d = "undecided", {"why": str(e)[:200]}
+        except RecursionError:
+            v, d = "undecided", {"why": "recursion limit"}
+        d["wall"] = round(time.time() - t0, 2)
+        return (v, d)
+    res = tc.fmap(one, plan)
+    D0, N0, L0, sg0 = types[0]
+    W0 = -(-(D0 + (1 if sg0 else 0)) // L0) * L0
+    try:
+        cv, cd = la.check_kernel(text, mod.functions["lk_control"], W0, [("a", W0, L0), ("b", W0, L0)], lambda cx, v: la.padd(v[0], v[1], -1))
+    except la.Undecided as e:
+        cv, cd = "undecided", {"why": str(e)}
+    if cv != "refuted" or "counterexample" not in cd:
+        r.broke("limb-arithmetic control: a + b judged as a - b gave %s" % cv)
+    cnt = {"proved": 0, "refuted": 0, "undecided": 0}
+    und = []
+    for job, (v, d) in zip(plan, res):
+        fname, tname, opname, W, L, opds, RW, spec = job
+        key = "limb/%s/%s" % (tname, opname)
+        if v == "proved":
+            cnt["proved"] += 1
+        elif v == "refuted":
+            cnt["refuted"] += 1
+            ce = d.get("counterexample", {})
+            r.violation(key, "%s: `%s` on %d-bit limbs does not agree with integer arithmetic modulo 2^%d: for limbs %s (least significant first) the result should be %s but the code computes %s"
+                        % (tname, opname, L, RW, ", ".join("%s=%#x" % kv for kv in sorted(ce.items())), hex(d.get("expected", 0)), hex(d.get("computed", 0))),
+                        {"type": tname, "op": opname, "detail": d}, finding_key="limb/%s" % re.sub(r"\d+$", "", opname))
+        else:
+            cnt["undecided"] += 1
+            und.append("%s (%s)" % (key, d.get("why", "residue not discharged, no counterexample among the samples")))
+    return cnt, und, len(types)
+
+
+LIMB_FLOOR = {"quick": 140, "thorough": 1500}
+
+
 def run(tier, seed, work):
     r = report.Run(PROP, tier, seed, "other")
     F = gen(tier)
@@ -205,11 +311,16 @@ def run(tier, seed, work):
     common.floor_check(r, "signed multi-limb instantiations under the sign rules", ninst, want)
     for g, k in (("G1", 1), ("G2", 2), ("G3", 1), ("G4", 1)):
         common.floor_check(r, "sign rule %s instances decided" % g, done[g], k * want)
+    lcnt, lund, ltypes = limb_rules(r, work, tier, seed)
+    for u in lund[:10]:
+        r.notes.append("note: limb obligation undecided: " + u)
+    common.floor_check(r, "limb-arithmetic obligations proved", lcnt["proved"], LIMB_FLOOR[tier])
     good = [f for f in F if f.status == "proved"]
     rng = random.Random(seed)
     r.coverage = {
         "explanation": "Type-level clauses and the sign discipline G1-G4 of the signed multi-limb type (path rule over the four sign valuations on -O1 -fno-inline IR): multi-limb storage (limb type, signedness, smallest sufficient width incl. the sign bit), numeric_limits/digits/signedness, result digits (max) and signedness (either) of the binary operators, shifts and unary operators keep the operand's type, comparisons return bool. The limb arithmetic itself (values) is NOT decided.",
         "evaluations": len(F), "distinct_nontrivial": nf["proved"], "rule": "non-trivial = proved type fact (clang value equal to the oracle's and confirmed by g++ static_assert)",
+        "limb_types": ltypes, "limb_obligations_proved": lcnt["proved"], "limb_obligations_refuted": lcnt["refuted"], "limb_obligations_undecided": lcnt["undecided"],
         "sign_rule_instantiations": ninst, "sign_rule_G1_is_neg": done["G1"], "sign_rule_G2_division": done["G2"], "sign_rule_G3_compare": done["G3"], "sign_rule_G4_shift_fill": done["G4"],
         "type_facts": len(F), "type_facts_proved": nf["proved"], "type_facts_refuted": nf["refuted"], "rejected_by_library": nf["rejected"],
         "samples": [{"key": f.key, "expr": f.expr, "value": f.value} for f in rng.sample(good, min(8, len(good)))], "exhaustive": False,
